@@ -2,18 +2,23 @@
    Executable model, definitions only (proofs: TsParseFacts.v, TsEnvFacts.v, TsRegexFacts.v).
 
    Go code followed:
-     testscript/testscript.go  (*TestScript).parse, expand, Setenv, Getenv, setup (envMap),
+     testscript/testscript.go  TestScript.parse, expand, Setenv, Getenv, setup (envMap),
                                exec / execBackground (cmd.Env = append(ts.env, "PWD="+ts.cd))
-     testscript/cmd.go         (*TestScript).cmdEnv
+     testscript/cmd.go         TestScript.cmdEnv
      GOROOT os/env.go          Expand, getShellName, isShellSpecialVar, isAlphaNum
      GOROOT regexp/regexp.go   QuoteMeta, special
-     GOROOT os/exec/exec.go    dedupEnv (what (*Cmd).Start hands to the child)
+     GOROOT os/exec/exec.go    dedupEnv (what Cmd.Start hands to the child)
      GOROOT regexp/syntax      the fragment "literal characters and escaped punctuation"
    Every literal of the repository code comes from Gen/TsParseConsts.v. *)
 From Coq Require Import List Bool Arith NArith.
 From Coq.Strings Require Import Byte.
 From GI Require Import Lib.Bytes Gen.TsParseConsts.
 Import ListNotations.
+
+(* [bytes] is used as a plain abbreviation here, so that every implicit type argument is
+   literally [list byte] (the constant Lib.Bytes.bytes is convertible to it, but rewriting
+   is syntactic) *)
+Local Notation bytes := (list byte) (only parsing).
 
 (* ------------------------------------------------------------------ small helpers *)
 
@@ -50,10 +55,10 @@ Definition map_set (k v : bytes) (m : envmap) : envmap := (k, v) :: m.
 (* ts.env (ordered KEY=VALUE list, handed to children) and ts.envMap (used for expansion) *)
 Record ts_env := { env_list : list bytes; env_map : envmap }.
 
-(* (*TestScript).Getenv *)
+(* TestScript.Getenv *)
 Definition getenv (st : ts_env) (k : bytes) : bytes := map_get (env_map st) k.
 
-(* (*TestScript).Setenv: ts.env = append(ts.env, key+"="+value); ts.envMap[key] = value *)
+(* TestScript.Setenv: ts.env = append(ts.env, key+"="+value); ts.envMap[key] = value *)
 Definition setenv (k v : bytes) (st : ts_env) : ts_env :=
   {| env_list := env_list st ++ [k ++ ts_env_sep :: v];
      env_map := map_set k v (env_map st) |}.
@@ -146,7 +151,7 @@ Definition re_special (b : byte) : bool := mem_byte b regexp_special_bytes.
 Definition quote_meta (s : bytes) : bytes :=
   flat_map (fun b => if re_special b then [backslash; b] else [b]) s.
 
-(* ------------------------------------------------------------------ (*TestScript).expand *)
+(* ------------------------------------------------------------------ TestScript.expand *)
 
 (* strings.TrimSuffix(key, suf) together with the test len(key1) != len(key) *)
 Definition strip_suffix (suf key : bytes) : option bytes :=
@@ -160,7 +165,7 @@ Definition expand_key (st : ts_env) (key : bytes) : bytes :=
   end.
 Definition expand (st : ts_env) (s : bytes) : bytes := os_expand (expand_key st) s.
 
-(* ------------------------------------------------------------------ (*TestScript).parse *)
+(* ------------------------------------------------------------------ TestScript.parse *)
 
 Definition is_sep (c : byte) : bool := mem_byte c ts_sep_bytes.
 Definition is_comment (c : byte) : bool := mem_byte c ts_comment_bytes.
@@ -169,7 +174,7 @@ Definition is_comment (c : byte) : bool := mem_byte c ts_comment_bytes.
 Definition add_chunk (st : ts_env) (arg : bytes) (chunk : option bytes) : bytes :=
   match chunk with Some ch => arg ++ expand st ch | None => arg end.
 (* "if start >= 0 { ...; args = append(args, arg) }" *)
-Definition flush (st : ts_env) (args : list bytes) (arg : bytes) (chunk : option bytes) : list bytes :=
+Definition flush_arg (st : ts_env) (args : list bytes) (arg : bytes) (chunk : option bytes) : list bytes :=
   match chunk with Some ch => args ++ [arg ++ expand st ch] | None => args end.
 Definition chunk_bytes (chunk : option bytes) : bytes :=
   match chunk with Some ch => ch | None => [] end.
@@ -179,11 +184,11 @@ Definition chunk_bytes (chunk : option bytes) : bytes :=
 Fixpoint parse_go (st : ts_env) (l : bytes) (args : list bytes) (arg : bytes)
          (chunk : option bytes) (quoted : bool) : option (list bytes) :=
   match l with
-  | [] => if quoted then None else Some (flush st args arg chunk)
+  | [] => if quoted then None else Some (flush_arg st args arg chunk)
   | c :: r =>
       if negb quoted && is_sep c then
-        if is_comment c then Some (flush st args arg chunk)
-        else parse_go st r (flush st args arg chunk) [] None false
+        if is_comment c then Some (flush_arg st args arg chunk)
+        else parse_go st r (flush_arg st args arg chunk) [] None false
       else if beq c ts_quote then
         if negb quoted then
           (* starting a quoted chunk *)
@@ -239,7 +244,7 @@ Definition dedup_env (env : list bytes) : option (list bytes) :=
   if existsb (mem_byte nul_byte) env then None
   else Some (rev (dedup_rev (rev env) [])).
 
-(* cmd.Env = append(ts.env, "PWD="+ts.cd), then (*Cmd).environ *)
+(* cmd.Env = append(ts.env, "PWD="+ts.cd), then Cmd.environ *)
 Definition child_env (st : ts_env) (cd : bytes) : option (list bytes) :=
   dedup_env (env_list st ++ [ts_pwd_prefix ++ cd]).
 
